@@ -9,10 +9,10 @@ CONSTANTS NA = 1
           MaxSnap = 2
           MaxTx = 1
           Ops = {"BeginTx", "AddBalance", "SubBalance", "SetBalance", "SetNonce", "SetCode", "SetState", "SelfDestruct", "CreateAccount", "EvmCreate", "ReadAccount", "ReadSlot", "Snapshot", "Revert", "Finalise"}
-          BaseKinds = {0, 1, 2, 3}
+          BaseKinds = {0, 2, 3, 4}
           KeepHist = FALSE
           HistLen = 0
           TxEvery = 1
-INVARIANTS MechanismIsNetDiff InvBAL InvFunctional InvFeasible InvFrames
+INVARIANTS MechanismIsNetDiff InvBAL InvFunctional InvFeasible InvFrames InvNoEmpty
 VIEW View
 CHECK_DEADLOCK FALSE
